@@ -89,6 +89,14 @@ def replay(prop, path):
         sys.exit(1)
     if "NOT-REPRODUCED" in r.stdout:
         sys.exit(0)
+    try:
+        rf = json.load(open(path))
+    except (OSError, ValueError):
+        rf = {}
+    if rf.get("crash") and r.returncode != 0 and "panic:" in (r.stdout + r.stderr) and "verif/sim" not in (r.stdout + r.stderr).split("panic:", 1)[1].split("\n\n")[1 if (r.stdout + r.stderr).split("panic:", 1)[1].count("\n\n") else 0]:
+        print("REPRODUCED process crash: " + (r.stdout + r.stderr).split("panic:", 1)[1][:300])
+        print("VIOLATION property=%s replay=%s" % (prop, path))
+        sys.exit(1)
     sys.stderr.write(r.stderr)
     infra("replay did not complete")
 
@@ -151,6 +159,43 @@ def main():
     # binary marked the run as failed (the race detector does that), which the summary already reports as a violation
     if len(sums) == workers:
         failed = []
+    crash_viol = []
+    if failed and len(sums) != workers:
+        # A worker died. If the panic is in a goroutine that the library started itself (no harness frame on its stack)
+        # the world cannot recover it: that is a finding about the library, attributed to the seed the worker was running.
+        for w, rc in failed:
+            try:
+                log = open(os.path.join(outdir, "w%d.log" % w)).read()
+                cur = int(open(os.path.join(outdir, "w%d.json.cur" % w)).read())
+            except (OSError, ValueError):
+                continue
+            i = log.find("panic:")
+            j = log.find("goroutine ", i)
+            if i < 0 or j < 0:
+                continue
+            block = log[j:].split("\n\n")[0]
+            if "verif/sim" in block or "github.com/zitadel/oidc/v3/pkg" not in block:
+                continue
+            top = [l.strip() for l in block.splitlines() if "github.com/zitadel/oidc/v3/pkg" in l and "(" in l]
+            fn = "unknown"
+            if top:
+                fn = top[0].rsplit("/", 1)[-1]
+                fn = fn[:fn.rfind("(")] if "(" in fn else fn
+            sig = "%s/process-crash/%s" % (prop, fn)
+            rpath = os.path.join(os.environ.get("VERIF_REPLAY_DIR") or os.path.join(VERIF, "replays"), "%s-crash-%d.json" % (prop, cur))
+            json.dump({"property": prop, "signature": sig, "crash": True, "detail": log[i:i + 600], "spec": {"prop": prop, "seed": cur},
+                       "original_length": 0, "minimised_length": 0, "trace": []}, open(rpath, "w"), indent=1)
+            crash_viol.append({"signature": sig, "prop": prop, "detail": "the process died: " + log[i:i + 200].replace("\n", " "), "seed": cur, "replay": rpath, "count": 1})
+        if crash_viol and len(crash_viol) == len(failed):
+            known = known_findings()
+            for v in crash_viol[:3]:
+                if v["signature"] in known:
+                    print("KNOWN-FINDING: property=%s %s %s" % (prop, v["signature"], v["detail"][:200]))
+                else:
+                    print("VIOLATION property=%s replay=%s" % (prop, v["replay"]))
+                    print("  signature=%s seed=%d: %s" % (v["signature"], v["seed"], v["detail"][:400]))
+            shutil.rmtree(outdir, ignore_errors=True)
+            sys.exit(1 if any(v["signature"] not in known for v in crash_viol) else 0)
     if failed or len(sums) != workers:
         tail = ""
         for w, rc in failed[:2]:
